@@ -17,7 +17,11 @@ func InitGenesis(ctx sdk.Context, k keeper.Keeper, data types.GenesisState) {
 			k.SetRewardRule(ctx, pool.Id, r)
 		}
 		k.SetPool(ctx, pool)
-		if !k.Expired(ctx, pool) {
+		// The active-pool queue is rebuilt from the heights alone: Expired() consults the
+		// queue for a pool whose end height is the current height, and that queue is what is
+		// being rebuilt here. A pool that ends in the first block after the import is still
+		// active and must be refunded by the end blocker of that block.
+		if ctx.BlockHeight() <= pool.EndHeight {
 			k.EnqueueActivePool(ctx, pool.Id, pool.EndHeight)
 		}
 	}
